@@ -46,6 +46,9 @@ def cases(tier):
     out.append({"name": "glue_arbitrary_backend_labels", "what": "glue"})
     out.append({"name": "sequence_2d_then_3d", "what": "sequence", "shapes": [(2, 2), (1, 2, 2)]})
     out.append({"name": "sequence_3d_then_2d", "what": "sequence", "shapes": [(1, 2, 2), (2, 2)]})
+    # the SAME map labelled under one back end and then under the other in one process: each call follows its own connectivity
+    out.append({"name": "sequence_same_map_cc3d_then_scipy", "what": "sequence", "shapes": [(2, 2), (2, 2)], "backends": ["cc3d", "scipy"], "same": True})
+    out.append({"name": "sequence_same_map_scipy_then_cc3d", "what": "sequence", "shapes": [(2, 2), (2, 2)], "backends": ["scipy", "cc3d"], "same": True})
     return out
 
 
@@ -201,16 +204,26 @@ def run_case(case):
             base.append(z3.And(v >= 0, v <= 1))
         base.append(z3.Or([v == 1 for v in pv]))
         vs.append(pv)
+    bes = case.get("backends") or [None] * len(shapes)
+    if case.get("same"):
+        base += [a == b for a, b in zip(vs[0], vs[1])]
 
     def decode(m):
-        return {"what": "sequence", "shapes": [list(s) for s in shapes], "maps": [[jsonable(v, m) for v in pv] for pv in vs]}
+        return {"what": "sequence", "shapes": [list(s) for s in shapes], "maps": [[jsonable(v, m) for v in pv] for pv in vs], "backends": list(bes)}
     h = H(PROP, case["name"], decode, replay_kind="sequence", max_witnesses=10)
 
     def body():
+        # a pristine copy of the package per explored path: module-level state left by one sequence must not leak into the next path
+        T2 = Twin()
+        IA = T2.mod("panoptica.instance_approximator")
+        PP = T2.mod("panoptica.utils.processing_pair")
+        CO2 = T2.mod("panoptica.utils.constants")
         ap = IA.ConnectedComponentsInstanceApproximator()
         for k, shp in enumerate(shapes):
             stubs.reset_calls()
-            a = SArr(list(vs[k]), "uint8", shp)
+            if case.get("backends"):
+                ap = IA.ConnectedComponentsInstanceApproximator(None if bes[k] is None else getattr(CO2.CCABackend, bes[k]))
+            a = SArr(list(vs[0] if case.get("same") else vs[k]), "uint8", shp)
             try:
                 up = ap.approximate_instances(PP.SemanticPair(a, a.copy()))
             except EngineSignal:
@@ -219,7 +232,7 @@ def run_case(case):
                 h.fail("completes", detail="%s: %s" % (type(e).__name__, str(e)[:140]))
                 return
             _check_calls(h, list(stubs.CALLS), {"pred": a, "ref": a}, {"pred": up.prediction_arr, "ref": up.reference_arr},
-                         {"pred": up.n_prediction_instance, "ref": up.n_reference_instance}, None, len(shp))
+                         {"pred": up.n_prediction_instance, "ref": up.n_reference_instance}, bes[k], len(shp))
         h.note_nontrivial("seq")
         h.note_nontrivial(str(shapes))
         h.witness(expect=None)
@@ -295,15 +308,18 @@ def real_glue(case, mode, expect):
 
 def real_sequence(case, mode, expect):
     import numpy as np
-    from panoptica import ConnectedComponentsInstanceApproximator, SemanticPair
+    from panoptica import ConnectedComponentsInstanceApproximator, SemanticPair, CCABackend
     ap = ConnectedComponentsInstanceApproximator()
     bad = None
-    for shp, vals in zip(case["shapes"], case["maps"]):
+    bes = case.get("backends") or [None] * len(case["shapes"])
+    for shp, vals, be in zip(case["shapes"], case["maps"], bes):
         a = np.array(vals, dtype=np.uint8).reshape(tuple(shp))
+        if case.get("backends"):
+            ap = ConnectedComponentsInstanceApproximator(None if be is None else getattr(CCABackend, be))
         up = ap.approximate_instances(SemanticPair(a, a.copy()))
-        bad = bad or _oracle(a, up.prediction_arr, up.n_prediction_instance, None, len(shp))
+        bad = bad or _oracle(a, up.prediction_arr, up.n_prediction_instance, be, len(shp))
     if bad:
-        bad = "documented_backend_used: after an input of another dimensionality: " + bad
+        bad = "documented_backend_used: after %s: %s" % ("the same map was labelled under the other back end" if case.get("backends") else "an input of another dimensionality", bad)
     return {"match": True, "violates": bad is not None, "reason": bad, "observed": None}
 
 
